@@ -1769,8 +1769,13 @@ fn guarded_fmt(flag: &Cell<bool>, f: impl FnOnce() -> String) {
 fn run_parse_case(id: &str, fields: &[Sx]) -> Result<String, String> {
     let f = Fields::parse(fields)?;
     f.only(&[
-        "le", "tab", "scanner", "filter", "sink", "pushed", "fmt", "runs", "text", "g",
+        "le", "tab", "scanner", "filter", "sink", "pushed", "fmt", "runs", "text", "g", "order",
     ])?;
+    // `(order fm)`: install the filter first, then the metrics (default: metrics first).
+    let filter_first = match f.get("order") {
+        Ok([a]) => as_atom(a)? == "fm",
+        _ => false,
+    };
     let metrics =
         ColumnMetrics::new().with_line_ending(as_le(f.one("le")?)?).with_tab_width(as_tab(f.one("tab")?)?);
     let scanner = as_scanner(f.one("scanner")?)?;
@@ -1794,9 +1799,15 @@ fn run_parse_case(id: &str, fields: &[Sx]) -> Result<String, String> {
 
     // Lexer, context and parser object; constructing any of them may panic.
     let built = guard(|| -> Result<(Lx, Cx, P), String> {
-        let lexer = Lexer::new(scanner, SourceText::new(text))
-            .with_column_metrics(metrics)
-            .with_filter(filter.to_rc());
+        let lexer = if filter_first {
+            Lexer::new(scanner, SourceText::new(text))
+                .with_filter(filter.to_rc())
+                .with_column_metrics(metrics)
+        } else {
+            Lexer::new(scanner, SourceText::new(text))
+                .with_column_metrics(metrics)
+                .with_filter(filter.to_rc())
+        };
         let mut ctx: Cx = if with_sink {
             let rec = Rc::clone(&sink_rec);
             let flag = Rc::clone(&fmt_panicked);
